@@ -367,12 +367,8 @@ func hsShape(d hsDef, role string) *shape {
 		}
 		cAuth := security.NewAuthenticator(e.cfg(d, true, peerName, cCache), stream.NewStream(cConn))
 		sAuth := security.NewAuthenticator(e.cfg(d, false, "", sCache), stream.NewStream(sConn))
-		var resumedOK atomic.Bool
 		client := func(ctx context.Context) error {
 			neg, err := cAuth.ClientHandshake(ctx)
-			if err == nil && d.resumed && neg != nil && neg.SessionResumed {
-				resumedOK.Store(true)
-			}
 			if err == nil && d.resumed && (neg == nil || !neg.SessionResumed) {
 				return fmt.Errorf("c19 harness: the measured handshake did not resume the session")
 			}
